@@ -390,8 +390,22 @@ func (k Keeper) UpdateLockedBorrows(ctx sdk.Context, borrow lendtypes.BorrowAsse
 
 	k.lend.UpdateBorrowStats(ctx, lendPair, borrow.IsStableBorrow, borrow.AmountOut.Amount, false)
 	lendPos.AmountIn.Amount = lendPos.AmountIn.Amount.Sub(borrow.AmountIn.Amount)
+	if lendPos.AmountIn.Amount.IsNegative() {
+		// collateral pledged out of credited rewards can exceed the deposited amount
+		lendPos.AmountIn.Amount = sdk.ZeroInt()
+	}
 	k.lend.UpdateLendStats(ctx, lendPos.AssetID, lendPos.PoolID, borrow.AmountIn.Amount, false)
-	if !lendPos.AmountIn.Amount.GT(sdk.ZeroInt()) {
+	// the lend position may only go away when nothing hangs on it any more: no balance that is
+	// still available to borrow/withdraw (rewards are credited there) and no other open borrow
+	hasOtherBorrows := false
+	userMapping, _ := k.lend.GetUserLendBorrowMapping(ctx, lendPos.Owner, lendPos.ID)
+	for _, id := range userMapping.BorrowId {
+		if id != borrow.ID {
+			hasOtherBorrows = true
+			break
+		}
+	}
+	if !lendPos.AmountIn.Amount.GT(sdk.ZeroInt()) && !lendPos.AvailableToBorrow.GT(sdk.ZeroInt()) && !hasOtherBorrows {
 		// delete lend position
 		k.lend.DeleteLendForAddressByAsset(ctx, lendPos.Owner, lendPos.ID)
 		k.lend.DeleteIDFromAssetStatsMapping(ctx, lendPos.PoolID, lendPos.AssetID, borrow.LendingID, true)
